@@ -52,11 +52,12 @@ func (h *harness) drive() {
 		h.apply(st)
 	}
 	h.stepIdx = len(h.x.Case.Steps)
+	h.nSessP1 = h.nSess
 	if !h.x.Failed() {
 		h.finish()
 	}
 	h.simEnd = h.now()
-	if h.nSess >= 2 || h.local.reorgs > 0 {
+	if h.nSessP1 >= 2 || h.local.reorgs > 0 {
 		h.x.Out.Nontrivial = true
 	}
 	h.teardown()
@@ -405,12 +406,23 @@ func (h *harness) gen(r *simkit.Rng) *simkit.Step {
 	h.stepsLeft--
 	ans := h.answerable()
 	busy, _ := h.actorBusy()
+	if len(h.selfq) > 0 && len(ans) > 0 && r.Chance(9, 10) {
+		// a late GetHashByNoRsp overtaking the finder's SyncStop blocks the actor for good (known
+		// finding F1) and ends the run: take that road only now and then
+		keep := ans[:0:0]
+		for _, p := range ans {
+			if !(p.kind == kHashByNo && p.seq == h.seq && h.running) {
+				keep = append(keep, p)
+			}
+		}
+		ans = keep
+	}
 	if len(h.selfq) > 0 && len(ans) > 0 && h.flood == 0 && r.Chance(1, 14) {
 		h.flood = len(ans) // let everything outstanding arrive ahead of the syncer's message to itself
 	}
 	if h.flood > 0 && len(ans) > 0 {
 		h.flood--
-		return &simkit.Step{Op: "rsp", N: 0, B: r.Intn(64)}
+		return &simkit.Step{Op: "rsp", N: h.indexOf(ans[0]), B: r.Intn(64)}
 	}
 	h.flood = 0
 	if len(h.selfq) > 0 && (len(ans) == 0 || r.Chance(85, 100)) {
@@ -455,6 +467,7 @@ func (h *harness) gen(r *simkit.Rng) *simkit.Step {
 			i = 0 // oldest first
 		}
 		p := ans[i]
+		i = h.indexOf(p)
 		vs := h.variants(p)
 		a := 0
 		pf := 35
@@ -483,7 +496,7 @@ func (h *harness) gen(r *simkit.Rng) *simkit.Step {
 		}
 		return &simkit.Step{Op: "tick", V: u}
 	case 2:
-		return &simkit.Step{Op: "drop", N: r.Intn(len(ans))}
+		return &simkit.Step{Op: "drop", N: h.indexOf(ans[r.Intn(len(ans))])}
 
 	case 3:
 		return &simkit.Step{Op: "stop", A: r.Pick(80, 20)}
@@ -492,6 +505,16 @@ func (h *harness) gen(r *simkit.Rng) *simkit.Step {
 	default:
 		return &simkit.Step{Op: "grow", N: r.Range(1, 8)}
 	}
+}
+
+// indexOf is the position of p in answerable(), which is what rsp/drop steps refer to.
+func (h *harness) indexOf(p *preq) int {
+	for i, q := range h.answerable() {
+		if q == p {
+			return i
+		}
+	}
+	return 0
 }
 
 func (h *harness) genStart(r *simkit.Rng) *simkit.Step {
